@@ -23,7 +23,7 @@ fn run(args: vcore::Args) -> i32 {
     let all_probes: Vec<usize> = (0..sess::PROBES.len()).collect();
     let configs: Vec<(sess::Model, usize)> = match tier {
         Tier::Quick => vec![
-            (sess::Model { prop: "C02", sessions: 2, writes: sess::ALL_W.to_vec(), caps: vec![4, 2], writers: vec![0], levels: vec![0], probes: all_probes.clone(), second_commit_first: false, endings: true }, 4),
+            (sess::Model { prop: "C02", sessions: 2, writes: sess::ALL_W.to_vec(), caps: vec![3, 2], writers: vec![0], levels: vec![0], probes: all_probes.clone(), second_commit_first: false, endings: true }, 4),
             (sess::Model { prop: "C02", sessions: 2, writes: vec![sess::W::CreateNode, sess::W::DeleteNodeB, sess::W::InsertTriple, sess::W::DeleteTriple], caps: vec![5, 1], writers: vec![0], levels: vec![0], probes: all_probes.clone(), second_commit_first: true, endings: true }, 5),
         ],
         Tier::Thorough => vec![
